@@ -21,7 +21,7 @@ theorem Inv.repar (h : Inv jid U NR p c) (p' : Par) (hx : p'.x = p.x) (hy : p'.y
     · exact { h.q with q_n := fun a => by rw [hw] at a; cases a }
     · rw [hw]; exact h.q
   · rw [hx, hy, hxs, hmb]; exact h.h
-  · exact ⟨by rw [hsb]; exact h.f.st, by rw [hpb]; exact h.f.ps, hrb, hrpb, h.f.rp⟩
+  · exact ⟨by rw [hsb]; exact h.f.st, by rw [hpb]; exact h.f.ps, hrb, hrpb, h.f.rp, h.f.rd⟩
 
 theorem Inv.weakRpb (h : Inv jid U NR p c) : Inv jid U NR { p with rpb := true } c :=
   h.repar _ rfl rfl rfl rfl (Or.inr rfl) rfl rfl h.f.rw (fun _ => rfl)
@@ -46,7 +46,7 @@ theorem Inv.saslSuccess (h : Inv jid U NR p c) (hc : HC p c) (ha : c.g.authOk = 
   · refine h.h.change hc.nil (h.nil_nt hc.nil) ⟨?_, fun _ => rfl⟩ (fun _ _ => ⟨hc.nn, smE_false_of_noauth (c := c) h ha⟩)
       (fun a => absurd a hnc) (fun _ a => by rw [h.raw_false hc.rb] at a; cases a)
     rintro (e | e) <;> rcases hoh with e' | e' <;> (rw [e'] at e; cases e)
-  · exact ⟨h.f.st, h.f.ps, h.f.rw, fun _ => rfl, fun a => by rw [h.f.ps] at a; exact absurd a hc.pb⟩
+  · exact ⟨h.f.st, h.f.ps, h.f.rw, fun _ => rfl, (fun a => by rw [h.f.ps] at a; exact absurd a hc.pb), h.f.rd⟩
 
 theorem Inv.handleSaslResult (h : Inv jid U NR p c) (hc : HC p c) (ha : c.g.authOk = false) (st : XTree) :
     Inv jid U NR { p with rpb := true } (Conn.handleSaslResult c st) := by
@@ -436,7 +436,7 @@ theorem Inv.prepReset (h : Inv jid U NR p c) (hc : HC p c) (oh : OpenH)
   refine ⟨h.cfg, h.q, h.e, h.gg, ?_, ?_, h.ts⟩
   · exact h.h.change hc.nil (h.nil_nt hc.nil) hoh (fun _ _ => ⟨hc.nn, hsm⟩)
       (fun a => absurd a hnc) (fun _ a => by rw [h.raw_false hc.rb] at a; cases a)
-  · exact ⟨h.f.st, h.f.ps, h.f.rw, fun _ => rfl, fun a => by rw [h.f.ps] at a; exact absurd a hc.pb⟩
+  · exact ⟨h.f.st, h.f.ps, h.f.rw, fun _ => rfl, (fun a => by rw [h.f.ps] at a; exact absurd a hc.pb), h.f.rd⟩
 
 theorem Inv.setSecured (h : Inv jid U NR p c) (hc : HC p c) (hlive : c.state = .connected) :
     Inv jid U NR p { c with hasTls := true, secured := true } := by
@@ -544,7 +544,10 @@ theorem Inv.runSys (h : Inv jid U NR p c) (hx : p.x = none) (pc : PC p) (hw : p.
       | exact ⟨fun _ => h1.xmppDisconnect.weakRpb, fun a => (by cases a)⟩
       | exact ⟨fun _ => h1.handleSaslResult hc hph st, fun a => (by cases a)⟩
   | sm =>
-    exact ⟨fun _ => (h1.handleSm hc hw' hlive hph.1 (hph.2 (by rw [hlive]; simp)) st).weakRpb, fun a => (by cases a)⟩
+    unfold Conn.runSys; dsimp only
+    split
+    · exact ⟨fun a => (by cases a), fun _ => h.weakRpb⟩
+    · exact ⟨fun _ => (h1.handleSm hc hw' hlive hph.1 (hph.2 (by rw [hlive]; simp)) st).weakRpb, fun a => (by cases a)⟩
   | compressResult =>
     unfold Conn.runSys; dsimp only
     split
